@@ -26,6 +26,9 @@ import (
 type Scalar struct {
 	Off, Len int
 	Order    *big.Int
+	// Bits (optional): the integer occupies only the low Bits bits of the slot (e.g. 255 of 256 for an
+	// Ed25519 y coordinate, whose top bit is the sign of x); higher bits are kept. 0 = the whole slot.
+	Bits int
 }
 
 // Hint locates the packed hint (omega index bytes followed by K cumulative
@@ -55,6 +58,10 @@ type Subject struct {
 
 	Scalars []Scalar
 	Hint    *Hint
+	// SigCoords / PKCoords locate little-endian field elements (modulus in Order) inside the signature / the
+	// encoded public key: value + k*p is a non-canonical encoding of the same element and must be refused.
+	SigCoords []Scalar
+	PKCoords  []Scalar
 
 	// WrapSign (optional, subjects with contexts): an independent reference signer that accepts a context of
 	// any length and hashes its length octet modulo 256 - the only signature an over-long context could ever
@@ -503,6 +510,14 @@ func (x *runner) base(seeds [][]byte, si, ml, ci, bi int) {
 	fams = append(fams, family{"sig-scalar", len(sc), func(i int) alt {
 		return alt{name: sc[i].Name, msg: msg, sig: sc[i].Data, ctx: ctx}
 	}})
+	sco := ScalarAlterations(sig, s.SigCoords)
+	fams = append(fams, family{"sig-coord", len(sco), func(i int) alt {
+		return alt{name: "coord-" + sco[i].Name, msg: msg, sig: sco[i].Data, ctx: ctx}
+	}})
+	pco := ScalarAlterations(kp.enc, s.PKCoords)
+	fams = append(fams, family{"pk-coord", len(pco), func(i int) alt {
+		return alt{name: "coord-" + pco[i].Name, pkEnc: pco[i].Data, msg: msg, sig: sig, ctx: ctx}
+	}})
 	if s.Hint != nil {
 		ha, dup := HintAlterations(sig, *s.Hint)
 		if dup {
@@ -639,6 +654,12 @@ func ScalarAlterations(sig []byte, scs []Scalar) []verifmc.Alteration {
 		}
 		v := new(big.Int).SetBytes(be)
 		limit := new(big.Int).Lsh(big.NewInt(1), uint(8*sc.Len))
+		high := new(big.Int)
+		if sc.Bits > 0 && sc.Bits < 8*sc.Len {
+			limit = new(big.Int).Lsh(big.NewInt(1), uint(sc.Bits))
+			high.Rsh(v, uint(sc.Bits)).Lsh(high, uint(sc.Bits))
+			v.Sub(v, high)
+		}
 		kmax := new(big.Int).Sub(limit, big.NewInt(1))
 		kmax.Sub(kmax, v).Div(kmax, sc.Order)
 		ks := []*big.Int{}
@@ -656,6 +677,7 @@ func ScalarAlterations(sig []byte, scs []Scalar) []verifmc.Alteration {
 			if w.Cmp(limit) >= 0 {
 				continue
 			}
+			w.Add(w, high)
 			wb := w.FillBytes(make([]byte, sc.Len))
 			c := append([]byte{}, sig...)
 			for i := 0; i < sc.Len; i++ {
